@@ -20,7 +20,7 @@ ASSUMPTIONS = [
     "'ensemble' with load_all/loads_all is refused by design (ValueError)",
     "dump to a path with an unsupported format: only the ValueError is judged, not whether an empty file was created",
 ]
-REQUIRED = {"cell.load": 100, "cell.loads": 60, "cell.load_all": 60, "cell.loads_all": 40, "cell.dump": 100, "cell.dumps": 20,
+REQUIRED = {"cell.load": 100, "cell.load-again-after-edit": 30, "cell.loads": 60, "cell.load_all": 60, "cell.loads_all": 40, "cell.dump": 100, "cell.dumps": 20,
             "cell.error": 40, "name-override.checked": 60, "dump.stream-left-open": 20, "dump.append-vs-truncate": 10}
 CHUNK_TIMEOUT = 600
 TECHNIQUE = "runtime monitoring: differential oracle, public entry points vs class-level codecs over the full call matrix"
@@ -116,8 +116,9 @@ def matrix(ctx, inp, text, fmt):
     for q in (podd, pnone, pwrong):
         q.write_text(text)
     n_mols = text.count("@<TRIPOS>MOLECULE") if fmt == "mol2" else len(ml.Molecule.loads_all_xyz(text))
+    UserMolecule = type("UserMolecule", (ml.Molecule,), {})      # a user-defined output type is an output type like any other
     otypes = [("molecule", ml.Molecule), ("ensemble", ml.ConformerEnsemble), (ml.Molecule, ml.Molecule),
-              (ml.Structure, ml.Structure), (ml.ConformerEnsemble, ml.ConformerEnsemble)]
+              (ml.Structure, ml.Structure), (ml.ConformerEnsemble, ml.ConformerEnsemble), (UserMolecule, UserMolecule)]
     for oarg, T in otypes:
         oname = oarg if isinstance(oarg, str) else oarg.__name__
         for name in (None, "Z"):
@@ -136,6 +137,12 @@ def matrix(ctx, inp, text, fmt):
                 want, werr = attempt(lambda: getattr(T, f"load_{fmt}")(p, name=name))
                 got, gerr = attempt(lambda: ml.load(src, otype=oarg, name=name, **kw))
                 judge(ctx, case, f"load:{fmt}:{oname}", got, gerr, want, werr, name)
+                if gerr is None and werr is None and src_kind == "Path":
+                    # loading again after the caller has edited the first result gives the file's content again
+                    edit_result(got)
+                    again, aerr = attempt(lambda: ml.load(src, otype=oarg, name=name, **kw))
+                    ctx.count("cell.load-again-after-edit")
+                    judge(ctx, case, f"load-again-after-editing-first-result:{fmt}:{oname}", again, aerr, want, werr, name)
             # ---------------- loads
             case = inp + ("loads", "text") + sig
             if ctx.want(case):
@@ -251,6 +258,17 @@ def matrix(ctx, inp, text, fmt):
                 _, e4 = attempt(lambda: ml.dump(obj, odd, ofmt))
                 if e4 is not None or odd.read_text() != expected:
                     ctx.violation(f"dump:path:{ofmt}:explicit-fmt-with-other-suffix-fails", case=case, err=repr(e4)[:200])
+
+
+def edit_result(x):
+    try:
+        for y in (x if isinstance(x, (list, tuple)) else [x]):
+            y.name = "edited-by-caller"
+            if y.n_atoms:
+                y.atoms[0].label = "EDITED"
+                y.coords[...] = 4321.0
+    except Exception:  # noqa
+        pass
 
 
 def judge(ctx, case, key, got, gerr, want, werr, name, want_list=False):
